@@ -166,9 +166,13 @@ def gc_cache(keep_newest=6):
             ents.append((os.path.getmtime(p), fn.split("-")[0], p))
     ents.sort(reverse=True)
     seen = {}
+    import time
+    now = time.time()
     for mt, kind, p in ents:
         seen[kind] = seen.get(kind, 0) + 1
-        if seen[kind] > keep_newest:
+        # entries younger than two hours may belong to a check that is running right now (several checks, or checks
+        # against several trees, can run side by side)
+        if seen[kind] > keep_newest and now - mt > 7200:
             shutil.rmtree(p, ignore_errors=True)
 
 
